@@ -7,22 +7,23 @@ MANIFEST = {
             "urlencoding::encode), C18_url_alphabet (subset of [A-Za-z0-9-._~%]), C18_url_no_comment_end (`*/` cannot "
             "occur); on the model of parse_at_rule, for all paths/positions/states: C18_import_placeholder, "
             "C18_import_media_wrapper (one balanced @media{} pair), C18_import_passthrough (no sign => generic at-rule), "
-            "C18_import_position_warning, C18_import_any_target_except_known (string form). REFUTED for the current code: "
-            "C18_import_any_target_refuted (`@import url(x)` is dropped, D17) and C18_import_braces_balanced_refuted "
+            "C18_import_position_warning, C18_import_placeholder_url / _url_fn and C18_import_any_target (string and url "
+            "forms, every sign and path: the statement that D17 refuted before fix eb11eee is now a theorem). REFUTED for "
+            "the current code: C18_import_braces_balanced_refuted "
             "(`@import 'a' layer(x) 5;` leaves `@layer x{` open: output written before a failing try_parse is not rolled "
             "back). Each run: paths over all Unicode planes incl. quotes, `*/`, `%`, spaces in string and url() form x "
             "layer/supports/media combinations and positions; the path recovered from each placeholder of the real output "
             "must equal the imported path, wrappers must balance, warnings must match.",
     "note": "Differential only: the token streams of layer()/supports()/media conditions (compared with the executable "
-            "specification). Known: D17 (url token / url() function), D25 (layer(a.b) gets a class prefix), D13 inside "
-            "supports(...). Import signs are assumed not to contain `*/`.",
+            "specification). Known: D25 (layer(a.b) gets a class prefix); D17 and D13-inside-supports() were repaired. Import signs are assumed not to contain `*/`.",
     "technique": "Coq proof (lists of code points, all lengths) + symbolic model lemmas + refutation witnesses + recovery "
                  "test on the implementation output",
 }
 
 THEOREMS = ["C18_url_roundtrip", "C18_url_alphabet", "C18_url_no_comment_end", "C18_import_placeholder",
             "C18_import_media_wrapper", "C18_import_passthrough", "C18_import_position_warning",
-            "C18_import_any_target_refuted", "C18_import_any_target_except_known", "C18_import_braces_balanced_refuted"]
+            "C18_import_placeholder_url", "C18_import_placeholder_url_fn", "C18_import_any_target",
+            "C18_import_braces_balanced_refuted"]
 
 
 def run(res):
